@@ -30,6 +30,7 @@ import (
 	"github.com/btcsuite/btcd/chainhash/v2"
 	"github.com/btcsuite/btcd/wire/v2"
 	"github.com/btcsuite/btcd/btcutil/v2"
+	"github.com/btcsuite/btcd/btcutil/v2/gcs"
 	"github.com/btcsuite/btcd/btcutil/v2/gcs/builder"
 	"github.com/btcsuite/btclog"
 	"github.com/btcsuite/btcd/rpcclient"
@@ -227,6 +228,7 @@ type nodeH struct {
 	poisoned      string
 	poisonedNote  string
 	poisonChecked uint32
+	lastTip     *verifchain.Node // C02: the stored tip at the previous quiescent point
 	subscribers []*nodeSub
 	// request -> remotes that answered it in turn (name, and name:lied
 	// when the answer contained the liar's false value)
@@ -313,6 +315,13 @@ func (h *nodeH) view(p *nodePeer) []*verifchain.Node {
 	case "lighter-fork":
 		// G .. T[forkFrom] B: always lighter than the honest chain
 		return append(append([]*verifchain.Node{}, h.f.trunk[:h.f.forkFrom+1]...), h.f.fork[0])
+	case "equal-fork":
+		// the fork cut to the honest chain's height: equal work, and
+		// only while the honest chain is still on the trunk
+		tip := h.honestTip()
+		if tip.Label[0] == 'T' && tip.Height > h.f.forkFrom {
+			return append(append([]*verifchain.Node{}, h.f.trunk[:h.f.forkFrom+1]...), h.f.fork[:tip.Height-h.f.forkFrom]...)
+		}
 	case "invalid-header":
 		tip := h.honest[len(h.honest)-1]
 		if x, ok := h.f.bad[tip.Hash]; ok {
@@ -519,6 +528,10 @@ func (h *nodeH) replies(p *nodePeer, q wire.Message) (out []wire.Message, drop b
 			d := f.data[n.Hash]
 			flt := d.Filter
 			if p.behaviour == "false-cfheaders" && n.Height == p.lieAt {
+				flt = d.BadFilter
+			}
+			if p.behaviour == "false-cfilter" {
+				// true filter headers, but a filter that omits a script
 				flt = d.BadFilter
 			}
 			data, err := flt.NBytes()
@@ -843,6 +856,9 @@ func (h *nodeH) safety() bool {
 	if err != nil || hd.BlockHash() != bb.Hash {
 		return c.Fail("C04", "C04:best-block-not-in-store", "BestBlock reports %s at height %d but the block header store has %v there (%v)", n.Label, bb.Height, hd, err)
 	}
+	if h.oracle == "C02" && h.c02Check() {
+		return true
+	}
 	if h.oracle == "C13" || h.oracle == "C04" {
 		// the client keeps no connection to a banned address
 		for _, sp := range h.cs.Peers() {
@@ -850,6 +866,34 @@ func (h *nodeH) safety() bool {
 				return c.Fail("C13", "C13:connected-to-banned-address", "the client keeps a connection to %s although that address is banned", sp.Addr())
 			}
 		}
+	}
+	return false
+}
+
+// c02Check compares the stored block header chain with the one seen at the
+// previous quiescent point: a chain that does not extend it must carry
+// strictly more work.
+func (h *nodeH) c02Check() bool {
+	hd, ht, err := h.cs.BlockHeaders.ChainTip()
+	if err != nil {
+		return h.c.Fail("C02", "C02:chaintip-error", "%v", err)
+	}
+	tip, ok := h.f.byHash[hd.BlockHash()]
+	if !ok || tip.Height != int32(ht) {
+		return h.c.Fail("C02", "C02:unknown-tip", "the stored tip %s at height %d is not a block of the tree", h.f.label(hd.BlockHash()), ht)
+	}
+	prev := h.lastTip
+	h.lastTip = tip
+	if prev == nil || prev == tip {
+		return false
+	}
+	for n := tip; n != nil; n = n.Parent {
+		if n == prev {
+			return false // an extension
+		}
+	}
+	if tip.Work.Cmp(prev.Work) <= 0 {
+		return h.c.Fail("C02", "C02:reorganised-onto-branch-not-heavier", "the stored chain went from tip %s (height %d) to tip %s (height %d), a different branch that does not carry more work", prev.Label, prev.Height, tip.Label, tip.Height)
 	}
 	return false
 }
@@ -955,6 +999,12 @@ var nodeModes = map[string]nodeMode{
 	// C03 on a chain long enough for filter checkpoints: the liar's false
 	// filter hash makes its checkpoints false from that height on
 	"C04L": {name: "C04", converge: true, long: true, behaviours: []string{"false-cfheaders", "false-prev-header", "silent", "drops-on-cf", "honest", "invalid-header", "garbage"}},
+	// C02 end to end: forks that are not strictly heavier must never replace
+	// the stored chain
+	"C02N": {name: "C02", behaviours: []string{"equal-fork", "lighter-fork", "invalid-header", "honest", "silent"}},
+	// C05/C06 end to end: what GetCFilter / GetBlock return with remotes
+	// that serve false filters or corrupted blocks
+	"C05N": {name: "C05", calls: true, behaviours: []string{"false-cfilter", "bad-block", "false-cfheaders", "honest", "silent"}},
 	"C19N": {name: "C19", subs: true, behaviours: []string{"honest", "silent", "invalid-header", "lighter-fork", "false-cfheaders", "drops-on-cf"}},
 	"C19L": {name: "C19", subs: true, long: true, behaviours: []string{"honest", "false-cfheaders", "silent", "drops-on-cf"}},
 	"C03L": {name: "C03", behaviours: []string{"false-cfheaders", "false-cfheaders-true-filter", "short-cfcheckpt", "false-prev-header", "silent", "drops-on-cf", "honest"}, long: true},
@@ -1405,6 +1455,31 @@ func (h *nodeH) callEvents(mode nodeMode) []nodeEv {
 				return ""
 			})
 		}},
+	}
+	if mode.name == "C05" {
+		evs = append(evs, nodeEv{"GetCFilter(T2) is called", func() {
+			h.launch("GetCFilter(T2)", func() (any, error) { return h.cs.GetCFilter(t2.Hash, wire.GCSFilterRegular) }, func(val any, err error) string {
+				if err != nil {
+					return ""
+				}
+				flt, _ := val.(*gcs.Filter)
+				if flt == nil {
+					return "returned neither a filter nor an error"
+				}
+				fh, err := builder.GetFilterHash(flt)
+				if err != nil {
+					return err.Error()
+				}
+				// every filter header the client ever committed for T2
+				// was the true one (unless a lone liar's value went in,
+				// the C04 known finding), so the filter must be the true
+				// filter of T2
+				if h.poisoned == "" && fh != f.data[t2.Hash].FilterHash {
+					return "returned a filter that does not hash to the filter hash committed for T2 (it is not T2's filter)"
+				}
+				return ""
+			})
+		}})
 	}
 	if mode.name != "C17" {
 		return evs
@@ -1895,6 +1970,8 @@ func TestVFXC15N(t *testing.T) { runNode(t, "C15-node", "C15") }
 func TestVFXC03L(t *testing.T) { runNode(t, "C03-long-chain", "C03L") }
 func TestVFXC04L(t *testing.T) { runNode(t, "C04-long-chain", "C04L") }
 func TestVFXC19N(t *testing.T) { runNode(t, "C19-node", "C19N") }
+func TestVFXC02N(t *testing.T) { runNode(t, "C02-node", "C02N") }
+func TestVFXC05N(t *testing.T) { runNode(t, "C05-node", "C05N") }
 func TestVFXC19L(t *testing.T) { runNode(t, "C19-long-chain", "C19L") }
 
 var _ = banman.NoCompactFilters
